@@ -365,6 +365,10 @@ class Extractor:
         k = e.get("k")
         if k == "Other" and e.get("src", "").strip() == "":
             return [(path, None)]
+        if k == "Tuple" and not e.get("elems"):
+            return [(path, None)]            # `()` : an arm that does nothing
+        if k == "Paren":
+            return self.exec_expr(e["e"], path)
         if k == "Loop":
             if path.looped:
                 raise EngineError("E-SM: nested loop in a state body")
